@@ -869,12 +869,113 @@ def run_corpus(R):
         exec_case(R, r, t, d, exp_of(t, d), form, mutate=False)
 
 
+_rs_uid = itertools.count()
+
+
+def run_resplit(R, r, n):
+    """C10 through views obtained EARLIER: a nested struct with two dynamically sized fields of one type (or an array of strings)
+    is replaced as a whole by a value of the same total size that divides it differently; the element is then read and
+    written through a view of it that was obtained before the replacement (views cache the offsets of dynamic parts)."""
+    xo = common.import_xobjects()
+    for _ in range(n):
+        uid = next(_rs_uid)
+        cache = {}
+        kind = r.choice(["arrays", "strings", "items"])
+        la, lb = r.sample([0, 1, 2, 3, 5], 2)
+        if kind == "arrays":
+            X = ("array", ("scalar", r.choice([2, 0, 4])), [None], [0])
+            va, vb = ("ARR", [la], [r.randint(1, 9) for _ in range(la)]), ("ARR", [lb], [r.randint(11, 19) for _ in range(lb)])
+        else:
+            X = ("string",)
+            va, vb = "a" * (8 * la + 1), "b" * (8 * lb + 1)
+        if kind == "items":
+            inner = ("array", X, [2], [0])
+            v0, v1 = ("ARR", [2], [va, vb]), ("ARR", [2], [vb, va])
+            leaf = None
+        else:
+            fs = [("f0", X), ("f1", X)]
+            if r.random() < 0.5:
+                fs.insert(r.randrange(3), ("k", ("scalar", 2)))
+            inner = ("struct", f"RS{uid}", fs)
+            v0 = {"f0": va, "f1": vb, "k": 3}
+            v1 = {"f0": vb, "f1": va, "k": 4}
+            v0 = {n_: v0[n_] for n_, _t in fs}
+            v1 = {n_: v1[n_] for n_, _t in fs}
+            leaf = "f1" if kind == "arrays" and (la if True else 0) > 0 else None
+        if r.random() < 0.5:
+            outer = ("struct", f"RO{uid}", [("k", ("scalar", 2)), ("i", inner), ("z", ("scalar", 2))])
+            d0 = {"k": 1, "i": v0, "z": 9}
+            path = (("f", "i"),)
+        else:
+            outer = ("array", inner, [2], [0])
+            d0 = ("ARR", [2], [v0, v0])
+            path = (("i", (r.randrange(2),)),)
+        sx = T.sexp(outer)
+        ctx = {"component": "lay", "type": sx, "value": repr(d0)[:600], "assigned": repr(v1)[:300], "path": pstr(path), "op": "resplit"}
+        try:
+            cls = T.build(outer, cache)
+            _vs, arg = vsexp(outer, d0, cache, "py")
+            buf = xo.ContextCpu().new_buffer(r.choice([64, 1024]))
+            obj = cls(arg, _buffer=buf)
+            view = cls._from_buffer(buf, int(obj._offset))
+            kept = [nav(h, path) for h in (obj, view)]
+            _vs1, arg1 = vsexp(inner, v1, cache, "py")
+            h = r.choice([obj, view])
+            # an existing object of the element's type (a dictionary / list would be assigned part by part)
+            nav_set(h, path, T.build(inner, cache)(arg1, _buffer=r.choice([buf, xo.ContextCpu().new_buffer(64)])))
+        except Exception as ex:
+            R.fail("C10:resplit-raises", f"{sx[:200]}: replacing {pstr(path)} by a value of the same size raises {type(ex).__name__}: {str(ex)[:120]}", ctx)
+            continue
+        R.tags["resplit." + kind] += 1
+        e1 = replace_at(outer, d0, path, v1)
+        want = expect_str(outer, e1, cache)
+        try:
+            now = deep_str(outer, obj, cache)
+        except Exception as ex:
+            now = "EXC " + type(ex).__name__
+        if now != want:
+            R.fail("C10:set-wrong", f"{sx[:200]}: after replacing {pstr(path)} the object reads {now[:140]}, expected {want[:140]}", ctx)
+            continue
+        wi = expect_str(inner, v1, cache)
+        stale = False
+        for kv, nm in zip(kept, ("handle", "view")):
+            try:
+                got = deep_str(inner, kv, cache)
+            except Exception as ex:
+                got = "EXC " + type(ex).__name__ + " " + str(ex)[:60]
+            if got != wi:
+                stale = True
+                R.fail("C10:stale-kept-view:read", f"{sx[:200]}: {pstr(path)} was replaced (same size, other division) through the object; a view of it "
+                       f"obtained earlier from the {nm} reads {got[:120]}, the element holds {wi[:120]}", ctx)
+                break
+        if stale or kind != "arrays":
+            continue
+        # a write through the earlier view lands in the assigned element, and only there
+        fld = "f1"
+        if len(v1[fld][2]) == 0:
+            fld = "f0"
+        if len(v1[fld][2]) == 0:
+            continue
+        try:
+            getattr(kept[0], fld)[0] = 77
+            v2 = dict(v1)
+            v2[fld] = ("ARR", v1[fld][1], [77] + list(v1[fld][2][1:]))
+            want2 = expect_str(outer, replace_at(outer, d0, path, v2), cache)
+            now2 = deep_str(outer, obj, cache)
+            if now2 != want2:
+                R.fail("C10:stale-kept-view:write", f"{sx[:200]}: a write through a view of {pstr(path)} obtained before its replacement: object reads {now2[:140]}, expected {want2[:140]}", ctx)
+        except Exception as ex:
+            R.fail("C10:stale-kept-view:write", f"{sx[:200]}: a write through a view of {pstr(path)} obtained before its replacement raises {type(ex).__name__}", ctx)
+
+
 def run_all(tier, seed, refs=False, n=None, mutate=True):
     r = random.Random(seed * 1000003 + (77 if refs else 13))
     R = Run()
     n = n or {"quick": 160, "thorough": 4000}[tier]
     if not refs:
         run_corpus(R)
+        if mutate:
+            run_resplit(R, random.Random(seed * 7919 + 5), max(6, n // 20))
     for _ in range(n):
         run_case(R, r, refs, mutate=mutate)
     got = common.run_driver_sharded("lay", split_cases(R), nproc=8 if n > 400 else 2)
